@@ -2,7 +2,7 @@
    md5 is universally quantified everywhere (a Section variable in Model.v). *)
 From Coq Require Import String List Bool ZArith Permutation.
 Import ListNotations.
-Require Import V.Lib.PyStr V.Lib.JTree V.Memo.Model V.Memo.Proofs V.Memo.Entries V.Memo.Chain V.Memo.Examples.
+Require Import V.Lib.PyStr V.Lib.JTree V.Memo.Model V.Memo.Proofs V.Memo.Entries V.Memo.Chain V.Memo.Regex V.Memo.Examples.
 Open Scope string_scope.
 
 (* The closed form [serialise] is the coded traversal applied to the info dictionary. *)
@@ -116,6 +116,39 @@ Theorem C16_fuzzy_chain : forall md5, (forall s, hex32 (md5 s) = true) ->
 Proof. exact fuzzy_chain. Qed.
 Print Assumptions C16_fuzzy_chain.
 
+(* The argument string at character level.  [resub ref rep s] is re.sub(r'\b' + re.escape(ref) + r'\b', rep, s)
+   (tied to Python's re by the correspondence run).  A reference contains no blank, so the replacement is local
+   to the blank-separated words of the arguments, whatever they are: *)
+Theorem C16_resub_words : forall ref rep ws, blank_free ref = true ->
+  resub ref rep (join " " ws) = join " " (map (resub ref rep) ws).
+Proof. exact resub_join. Qed.
+Print Assumptions C16_resub_words.
+
+(* ... a word that is the reference itself is replaced when the reference begins and ends with a word character,
+   and a word in which the reference does not occur is left alone. *)
+Theorem C16_resub_word : forall ref rep,
+  (headw ref = true -> lastw ref = true -> resub ref rep ref = rep) /\
+  (forall w, occurs ref w = false -> resub ref rep w = w).
+Proof. intros ref rep. split; [apply resub_self|intros w; apply resub_no_occ]. Qed.
+Print Assumptions C16_resub_word.
+
+(* The code's loop (one re.sub per discovered reference, in the code's order: [args_chars]) and the token model
+   [args_of] give the same arguments, hence the same info, on blank-delimited arguments: the token list is
+   [blanks ws] and every word alone is rewritten to what the token model says ([delimited], a boolean). *)
+Theorem C16_regex_is_tokens : forall md5 fuzzy ph disc order c ws,
+  c_args c = blanks ws -> delimited md5 fuzzy ph disc order c ws = true ->
+  args_chars md5 fuzzy ph disc order c = args_of md5 fuzzy ph (c_refs c) (c_args c) /\
+  info_of_chars md5 fuzzy ph disc order c = info_of md5 fuzzy ph c.
+Proof. exact regex_is_tokens. Qed.
+Print Assumptions C16_regex_is_tokens.
+
+(* ... for whole workflows: the character-level infos are the infos of the token model, so every theorem above
+   about [infos]/[hashes] holds of the character-level model on delimited workflows. *)
+Theorem C16_regex_is_tokens_graph : forall md5 fuzzy g,
+  delimited_graph md5 fuzzy g = true -> infos_chars md5 fuzzy g = infos md5 fuzzy (map fst g).
+Proof. exact infos_chars_tokens. Qed.
+Print Assumptions C16_regex_is_tokens_graph.
+
 (* non-vacuity: a producer and a consumer of its file out.txt and of an input; md5 s = "<s>" *)
 Definition ex_md5 (s : string) : string := "<" ++ s ++ ">".
 Definition ex_prod : comp := {| c_name := "gen"; c_stage := 0; c_location := "/tmp/i1"; c_exe := "echo";
@@ -153,3 +186,11 @@ Proof.
   split; [exact ex_digest_hex|]. split; [exact ch_is_chain|]. split; [vm_compute; reflexivity|].
   split; [exact ch_good|]. repeat split; vm_compute; reflexivity.
 Qed.
+
+(* non-vacuity of [delimited_graph]: the workflow of C16_nonvacuous with the oracles the code computes for it *)
+Example C16_nonvacuous_regex :
+  let g := [(ex_prod, ([], [])); (ex_cons "OUT", (["stage0.gen/out.txt:ref"; "input/in.txt:ref"], [0%nat; 1%nat]))] in
+  delimited_graph ex_md5 false g = true /\ delimited_graph ex_md5 true g = true /\
+  nth 1 (infos_chars ex_md5 false g) None =
+    Some {| i_files := ["<OUT>:ref"; "<abc>:ref"]; i_exe := "cat"; i_args := "file:<OUT>:ref file:<abc>:ref"; i_image := None |}.
+Proof. vm_compute. repeat split; reflexivity. Qed.
